@@ -163,6 +163,10 @@ def group_runs(g, tier):
                 W('ovl(mem,mem,mem)', 'random', walks=10 * k, length=40, ops=T, split=True, lower_only=True),
                 W('ovlsh(2)', 'random', walks=15 * k, length=40, ops=T, split=True, lower_only=True),
                 W('ovlsub(2)', 'random', walks=15 * k, length=40, ops=T, split=True, lower_only=True)]
+    if g == 'afaults':
+        k = 1 if q else 12
+        cfgs = [('async:fault(mem)', 30), ('async:ovl(fault(mem),mem)', 25), ('async:ovl(mem,fault(mem))', 25), ('async:alt(zr,fault(mem))', 25), ('async:alt(zr,ovl(fault(mem),mem))', 15)]
+        return [dict(kind='faults', cfg=c, pairs=n * k, split=False, names=['ascii', 'prefix', 'dotted'][i % 3], lts='small' if i % 2 == 0 else 'deep', tspec='Trace_Tree') for i, (c, n) in enumerate(cfgs)]
     if g == 'emb':
         return [dict(kind='emb', tspec='Trace_Tree')] + [dict(kind='embdyn', names=nm, tspec='Trace_Tree') for nm in (('ascii', 'prefix2') if q else ('ascii', 'prefix', 'prefix2', 'dotted', 'multi', 'rnd'))]
     if g == 'faults':
@@ -446,10 +450,10 @@ PROPS = {
     'C08': dict(groups=['ovl', 'times', 'faults']),
     'C09': dict(groups=['ovl']),
     'C06': dict(groups=['join']),
-    'C15': dict(groups=['async', 'join']),
+    'C15': dict(groups=['async', 'join', 'afaults']),
     'C19': dict(groups=['times', 'handles', 'tree', 'alt', 'ovl']),
     'C18': dict(groups=['emb']),
-    'C20': dict(groups=['faults']),
+    'C20': dict(groups=['faults', 'afaults']),
     'C16': dict(groups=['conc16']),
     'C17': dict(groups=['conc17']),
     'C11': dict(groups=['xfer', 'tree', 'alt', 'ovl']),
